@@ -140,6 +140,14 @@ def step (st : DState) (line : String) : DState × String :=
     match parseScalar t with
     | some v => (st, showOuts [intOk v])
     | none => (st, "bad-op")
+  | ["conv", "utf8", t] =>
+    match parseScalar t with
+    | some v => (st, showOuts [utf8Ok v])
+    | none => (st, "bad-op")
+  | ["conv", "latin1", t] =>
+    match parseScalar t with
+    | some v => (st, showOuts [latin1Ok v])
+    | none => (st, "bad-op")
   | ["conv", "hdr", t] =>
     match parseContainer t with
     | some c => (st, showOuts (headerOutcomes c))
